@@ -47,23 +47,23 @@ sweep(void)
 		noted[i] = 1;
 		int c    = uctx[i];
 		if (ukind[i] == 2 && KRESULT(i) == 0) {
-			nni_msg *m = nni_aio_get_msg(&uaio[i]);
+			nni_msg *m = nni_aio_get_msg(&uaio_at(i));
 			CHECK(m != NULL, "successful receive carries a reply");
 			CHECK(m->tag / 100 == c + 1, "a reply is delivered only to the context whose request it answers");
 			CHECK(m->tag % 100 == gen[c], "a reply is delivered only for the context's currently outstanding request (not a cancelled or superseded one)");
 			answered[c]++;
 			CHECK(answered[c] == 1, "a request is answered at most once (duplicates are discarded)");
 			nni_msg_free(m);
-			nni_aio_set_msg(&uaio[i], NULL);
+			nni_aio_set_msg(&uaio_at(i), NULL);
 			WITNESS("reply delivered");
 		}
 		if (ukind[i] == 1) {
 			if (KRESULT(i) == 0)
-				CHECK(nni_aio_get_msg(&uaio[i]) == NULL, "C03: accepted request is owned by the library");
+				CHECK(nni_aio_get_msg(&uaio_at(i)) == NULL, "C03: accepted request is owned by the library");
 			else {
-				CHECK(nni_aio_get_msg(&uaio[i]) == umsg[i], "C03: failed send leaves the request with the caller");
+				CHECK(nni_aio_get_msg(&uaio_at(i)) == umsg[i], "C03: failed send leaves the request with the caller");
 				nni_msg_free(umsg[i]);
-				nni_aio_set_msg(&uaio[i], NULL);
+				nni_aio_set_msg(&uaio_at(i), NULL);
 			}
 		}
 	}
@@ -75,7 +75,7 @@ monitor(void)
 	sweep();
 	for (int i = 0; i < MAXU; i++)
 		if (uaio_used[i])
-			CHECK(env_aio_completed(&uaio[i]) <= 1, "operation completes at most once");
+			CHECK(env_aio_completed(&uaio_at(i)) <= 1, "operation completes at most once");
 	if (sock_closed)
 		return;
 	/* C12 progress invariant */
@@ -110,7 +110,10 @@ ev_attach(int p)
 	if (kstop)
 		return;
 	env_pipe_init(&kpipe[p], 100 + p, REQ0_PEER);
-	memset(&pd[p], 0, sizeof(pd[p]));
+	{
+		static const __typeof__(pd[0]) pd_zero;
+		pd[p] = pd_zero; /* struct assignment keeps field sensitivity, memset does not */
+	}
 	CHECK(req0_pipe_init(&pd[p], &kpipe[p], &sock) == 0, "pipe_init");
 	kpipe_up[p] = 1;
 	CHECK(req0_pipe_start(&pd[p]) == 0, "pipe_start accepts a REP peer");
@@ -140,11 +143,11 @@ ev_send(int c, int i, int blocking)
 	uctx[i]  = c;
 	ukind[i] = 1;
 	umsg[i]  = kmsg(2);
-	nni_aio_set_msg(&uaio[i], umsg[i]);
-	env_aio_submit(&uaio[i]);
+	nni_aio_set_msg(&uaio_at(i), umsg[i]);
+	env_aio_submit(&uaio_at(i));
 	int ready = !nni_list_empty(&sock.ready_pipes);
 	retry_at_send[c] = ctxs[c]->retry;
-	req0_ctx_send(ctxs[c], &uaio[i]);
+	req0_ctx_send(ctxs[c], &uaio_at(i));
 	kquiesce();
 	if (KDONE(i) && KRESULT(i) == 0) {
 		gen[c]++;
@@ -182,8 +185,8 @@ ev_recv(int c, int i, int blocking)
 	kuaio_prepare(i, blocking);
 	uctx[i]  = c;
 	ukind[i] = 2;
-	env_aio_submit(&uaio[i]);
-	req0_ctx_recv(ctxs[c], &uaio[i]);
+	env_aio_submit(&uaio_at(i));
+	req0_ctx_recv(ctxs[c], &uaio_at(i));
 	if (had_recv) {
 		CHECK(KDONE(i) && KRESULT(i) == NNG_ESTATE, "a second concurrent receive fails with ESTATE");
 		WITNESS("second receive refused");
@@ -290,7 +293,7 @@ ev_cancel(int i)
 	int was_pending = !KDONE(i);
 	(void) KRESULT(i);
 	int c = uctx[i];
-	nni_aio_abort(&uaio[i], NNG_ECANCELED);
+	nni_aio_abort(&uaio_at(i), NNG_ECANCELED);
 	kquiesce();
 	if (was_pending) {
 		CHECK(KDONE(i) && KRESULT(i) == NNG_ECANCELED, "cancel completes the pending operation with ECANCELED");
@@ -416,7 +419,6 @@ ev_close(void)
 void
 harness(void)
 {
-	memset(&sock, 0, sizeof(sock));
 #ifdef RANDOM0
 	env_random_value = RANDOM0;
 #endif
@@ -424,7 +426,6 @@ harness(void)
 	ctxs[0] = &sock.master;
 	ctxs[1] = &xctx;
 #ifdef TWOCTX
-	memset(&xctx, 0, sizeof(xctx));
 	req0_ctx_init(&xctx, &sock);
 	have_x = 1;
 #endif
